@@ -38,7 +38,7 @@ def run(ctx):
     nlc = ctx.anchor(F.method, "Raft", "notify_leader_change")
     if not nlc:
         return
-    calls = [c for c in F.callers_of(lambda k: k == nlc.id) if "test" not in c[0]]
+    calls = [c for c in F.callers_of(lambda k: k == nlc.id) if not is_test_id(c[0])]
     ctx.floor("C31-a", len(calls), 5, "calls of Raft::notify_leader_change")
     relay = set()    # InternalEvent variants whose payload id is published with the node's own current term
     n_none = 0
@@ -76,7 +76,7 @@ def run(ctx):
     n_prod = 0
     for v in sorted(relay):
         for (b, bi, si, st) in all_agg_sites(F, "InternalEvent", v, crates=("d_engine_core", "d_engine_server")):
-            if "test" in b.id:
+            if is_test_id(b.id):
                 continue
             n_prod += 1
             s = Slice(F, b).operand(st["rv"]["ops"][0])
@@ -116,7 +116,7 @@ def run(ctx):
     ctx.floor("C31-a", n_some, 5, "producer sites examined (non-None constructions + call sites of id-forwarding helpers)")
 
     # ---------------------------------------------------------------- C31-b producers of NoopCommitted
-    noops = [x for x in all_agg_sites(F, "InternalEvent", "NoopCommitted", crates=("d_engine_core", "d_engine_server")) if "test" not in x[0].id]
+    noops = [x for x in all_agg_sites(F, "InternalEvent", "NoopCommitted", crates=("d_engine_core", "d_engine_server")) if not is_test_id(x[0].id)]
     ctx.floor("C31-b", len(noops), 1, "constructions of InternalEvent::NoopCommitted")
     for (b, bi, si, st) in noops:
         root = F.root_of[b.id]
@@ -125,7 +125,7 @@ def run(ctx):
         ctx.check("C31-b", "%s#NoopCommitted" % fkey(root), ok, "built by LeaderState from PostCommitAction::LeaderNoop.term",
                   "NoopCommitted is built outside LeaderState or its term is not the LeaderNoop action's term: (self, term) could be announced for a term "
                   "this node did not lead", loc(b, bi))
-    acts = [x for x in all_agg_sites(F, "PostCommitAction", "LeaderNoop", crates=("d_engine_core",)) if "test" not in x[0].id]
+    acts = [x for x in all_agg_sites(F, "PostCommitAction", "LeaderNoop", crates=("d_engine_core",)) if not is_test_id(x[0].id)]
     ctx.floor("C31-b", len(acts), 1, "constructions of PostCommitAction::LeaderNoop")
     for (b, bi, si, st) in acts:
         root = F.root_of[b.id]
@@ -136,7 +136,7 @@ def run(ctx):
                   "was not elected for", loc(b, bi))
 
     # ---------------------------------------------------------------- C31-c producer of LeaderDiscovered
-    lds = [x for x in all_agg_sites(F, "InternalEvent", "LeaderDiscovered", crates=("d_engine_core", "d_engine_server")) if "test" not in x[0].id]
+    lds = [x for x in all_agg_sites(F, "InternalEvent", "LeaderDiscovered", crates=("d_engine_core", "d_engine_server")) if not is_test_id(x[0].id)]
     ctx.floor("C31-c", len(lds), 1, "constructions of InternalEvent::LeaderDiscovered")
     for (b, bi, si, st) in lds:
         root = F.root_of[b.id]
